@@ -38,7 +38,8 @@ TIERS = {"quick": {"shards": 8, "cases": 110, "timeout": 1500, "fuzz_jobs": 4, "
 FLOOR_BASE = {"quick": 75, "thorough": 5000}    # case counts the floors below were calibrated for; the launcher scales them
 FLOOR_FIXED = {"reference-call-repeats", "leak-probe-calls"}
 CLASSES = ["boundary-size", "single-variable", "matrix-gaps", "fields-only", "no-fields", "high-degree", "raw-repeated-labels",
-           "stale-model", "chain-2000", "dense-40", "generic"]
+           "stale-model", "chain-2000", "dense-40", "huge-sparse", "generic"]
+BIG = ("chain-2000", "dense-40", "huge-sparse")
 SCHED = ["empty", "zeros", "extreme", "length-1", "linear", "geometric", "list", "numbers"]
 
 
@@ -49,7 +50,7 @@ def FLOORS(tier):
          "sanitizer-log-polls": 300, "refcount-objects-checked": 5000,
          "signal-during-call:interrupted": 3}
     for c in CLASSES:
-        f["class:" + c] = (8 if c in ("chain-2000", "dense-40") else 25) if q else 1500
+        f["class:" + c] = ((3 if c == "huge-sparse" else 8) if c in BIG else 25) if q else (300 if c == "huge-sparse" else 1500)
     for s in SCHED:
         f["schedule:" + s] = 30 if q else 3000
     return f
@@ -206,8 +207,10 @@ class _Interrupt(Exception):
 
 def hostile_config(rng):
     cls = rng.choice(CLASSES)
-    if os.environ.get("QV_C17_VALGRIND") and cls in ("chain-2000", "dense-40"):
+    if os.environ.get("QV_C17_VALGRIND") and cls in BIG:
         cls = "generic"
+    if cls == "huge-sparse" and rng.random() < 0.75:
+        cls = "generic"          # (kept rare: each such case costs about as much as fifty small ones)
     fn = rng.choice(A.FUNCS)
     spin, d2 = A.is_spin(fn), A.is_deg2(fn)
     kind = "spin" if spin else "bool"
@@ -285,6 +288,20 @@ def hostile_config(rng):
         tn = {"anneal_quso": "QUSOMatrix", "anneal_qubo": "QUBOMatrix", "anneal_puso": "PUSOMatrix"}[fn]
         mat = True
         terms = {(i, i + 1): (-1.0 if i % 3 else 2.0) for i in range(1999)}
+    elif cls == "huge-sparse":
+        # integer-labelled Matrix models whose largest label lies around 2^15 / 2^16 / 2^17 (N = max_index + 1 spins, nearly all of
+        # them isolated): 16-bit counters, N-dependent block sizes and divisions by N-derived quantities live here
+        fn = rng.choice(["anneal_quso", "anneal_qubo", "anneal_puso", "anneal_pubo"])
+        spin, d2 = A.is_spin(fn), A.is_deg2(fn)
+        kind = "spin" if spin else "bool"
+        tn = {"anneal_quso": "QUSOMatrix", "anneal_qubo": "QUBOMatrix", "anneal_puso": "PUSOMatrix", "anneal_pubo": "PUBOMatrix"}[fn]
+        mat = True
+        top = rng.choice([32766, 32767, 32768, 65534, 65535, 65536, 65537, 70000, 131072, 131073])
+        terms = {(0, 1): 1.0, (top,): -1.0, (1, top): 0.5}
+        if not d2:
+            terms[(0, 1, top)] = 2.0
+        if rng.random() < 0.4:
+            terms.update({(i, i + 1): -1.0 for i in range(top - 40, top)})
     elif cls == "dense-40":
         fn = rng.choice(["anneal_quso", "anneal_qubo"])
         spin = A.is_spin(fn)
@@ -334,7 +351,7 @@ def finish_kwargs(rng, cfg):
     spin = A.is_spin(cfg["fn"])
     kw = {}
     s = rng.choice(SCHED)
-    big = cfg["class"] in ("chain-2000", "dense-40")
+    big = cfg["class"] in BIG
     if s == "empty":
         kw["schedule"] = []
     elif s == "zeros":
@@ -380,7 +397,7 @@ def case(ctx, rng, idx):
     _state["pending"] = []
     _state.pop("last_kernel_args", None)
     interrupted = False
-    if rng.random() < 0.06 and not os.environ.get("QV_C17_VALGRIND") and cfg["class"] not in ("chain-2000", "dense-40"):
+    if rng.random() < 0.06 and not os.environ.get("QV_C17_VALGRIND") and cfg["class"] not in BIG:
         # a signal whose Python handler raises arrives while the kernel runs (Ctrl-C, an alarm): the call may end with that
         # exception or finish first -- either way the heap stays sound and later calls work
         import signal
@@ -457,7 +474,7 @@ def case(ctx, rng, idx):
     lk = _state.get("last_kernel_args")
     if lk and lk[2] >= 2 and lk[3] >= 1:
         ctx.nontrivial((cfg["fn"], cfg["type"], sorted(cfg["terms"].items(), key=repr)[:40], sorted(cfg["kw"].items(), key=repr)))
-    if cfg["class"] not in ("chain-2000", "dense-40"):
+    if cfg["class"] not in BIG:
         ctx.sample({"class": cfg["class"], "call": w}, limit=3)
 
 
